@@ -63,6 +63,8 @@ def check(prog: Program, rep):
     semantic.flag_consumers(prog, rep, "C07.R2", MODELS)
     for c in MODELS:
         semantic.helper_preconditions(prog, rep, "C07.R2", c)
+    from rules.common import helpers_exact
+    helpers_exact(prog, rep, "C07.R2")
     rep.rule("C07.R3", "objective reader = writer", floor=4)
     reader_writer(prog, rep, "C07.R3")
     rep.rule("C07.R4", "weight bound provider and numeric type", floor=6)
@@ -71,3 +73,6 @@ def check(prog: Program, rep):
     rep.rule("C07.R5", "the ignore set and options derive only from this call's arguments (no write to caller objects or shared defaults)", floor=6)
     from rules.c18 import class_inputs_not_mutated
     class_inputs_not_mutated(prog, rep, "C07.R5", MODELS)
+    rep.rule("C07.R6", "node-weighted input: expansion scheme, attribute handling (missing => ignored, present incl. 0 => weighted)", floor=12)
+    from rules.common import node_mode_plumbing
+    node_mode_plumbing(prog, rep, "C07.R6")
